@@ -67,7 +67,9 @@ Record cmd_info : Type := {
   ci_txns : list txn_site;
   ci_prechecks : list guarded_call;
   ci_writes : list guarded_call;
-  ci_hard_checkouts : list guarded_call
+  ci_hard_checkouts : list guarded_call;
+  ci_seq : list (string * string);       (* (function, call) of prechecks and writes, source order *)
+  ci_branch_arg : bool                   (* the command takes --branch (argset::branch_arg()) *)
 }.
 
 (* the last setting of an option in a builder chain; None = option not mentioned *)
